@@ -688,7 +688,11 @@ func (c *Ctx) rulesC07(a *coreAnchors) {
 		_, vAdd, _ := c.constVal(pm, "MutationAdd")
 		lit := false
 		typeAdd := false
-		for _, b := range na.Blocks {
+		var naBlocks []*ssa.BasicBlock
+		for _, hf := range c.hostedFns(na) {
+			naBlocks = append(naBlocks, hf.Blocks...)
+		}
+		for _, b := range naBlocks {
 			for _, ins := range b.Instrs {
 				st, ok := ins.(*ssa.Store)
 				if !ok {
@@ -710,7 +714,7 @@ func (c *Ctx) rulesC07(a *coreAnchors) {
 		c.check(typeAdd, "C07.lit", "NewAutoMutation is an Add mutation", na.Pos(), "auto states are added (Type: MutationAdd)")
 		// candidate append guards
 		na2 := 0
-		for _, b := range na.Blocks {
+		for _, b := range naBlocks {
 			for _, ins := range b.Instrs {
 				call, ok := ins.(*ssa.Call)
 				if !ok {
@@ -719,7 +723,7 @@ func (c *Ctx) rulesC07(a *coreAnchors) {
 				if bi, ok := call.Call.Value.(*ssa.Builtin); !ok || bi.Name() != "append" {
 					continue
 				}
-				gs := guardsOf(b)
+				gs := c.guardsHosted(ins, na)
 				auto, notActive, notBlocked := false, false, false
 				for _, g := range gs {
 					v, neg := stripNot(g.Cond)
